@@ -63,6 +63,8 @@ class Scope:
                 if tgt is None:
                     continue
                 tc, tb = tgt
+                if tc.name != "deserr":
+                    continue  # user functions named in attributes are opaque
                 if tb.impl_trait and npath(tb.impl_trait) in ("Deserr", "DeserializeError", "MergeWithError"):
                     continue  # recursion through the trait / the error type's own business
                 if tb.impl_trait and npath(tb.impl_trait) in ("IntoValue", "Map", "Sequence"):
